@@ -637,7 +637,7 @@ class World:
         conns_to = None
         while not self._finished():
             if self.steps > max_steps:
-                if getattr(self, '_extend', False) and not getattr(self, '_extended', False):
+                if getattr(self, '_extend', False) and not getattr(self, '_extended', False) and policy != 'uniform':
                     self._extended = True
                     policy = 'uniform'
                     max_steps *= 10
